@@ -495,6 +495,13 @@ func (c *c14Ctx) mutResult(m *c14Mut, res *C14Res) {
 		if res.Outcome == "TIMEOUT" || res.Outcome == "CRASH" || res.Outcome == "ALLOC" {
 			sig = strings.ToLower(res.Outcome) + ":" + res.Call + ":" + c14PartClass(m)
 		}
+		// the whole-grid-range class: a formula / defined name replaced by A1:XFD1048576 makes CalcCellValue
+		// materialise the grid; depending on machine load that ends as a timeout or as a resource-limit kill of
+		// the worker. Attributed by the mutation (value names the whole grid) and the call, not by the outcome class.
+		if (res.Outcome == "TIMEOUT" || res.Outcome == "CRASH") && res.Call == "CalcCellValue" &&
+			(m.kind == "text" || m.kind == "atval") && m.val >= 0 && m.val < len(c14Values) && c14Values[m.val] == "A1:XFD1048576" {
+			sig = "wholegrid:CalcCellValue:" + c14PartClass(m)
+		}
 		what := fmt.Sprintf("%s in %s (%s) during %s; %s", res.Outcome, res.Site, res.Kind, res.Call, m.ident())
 		if res.Outcome != "PANIC" {
 			what = fmt.Sprintf("%s during %s (battery took %d ms, allocated %d MiB); %s", res.Outcome, res.Call, res.Ms, res.Alloc>>20, m.ident())
